@@ -550,7 +550,7 @@ func Normalise(t *Type, v V) V {
 				continue
 			}
 			nv := Normalise(f.Type, fv)
-			if f.Req == idl.ReqOptional && f.HasDef && Equal(nv, Normalise(f.Type, f.Default)) {
+			if f.Req == idl.ReqOptional && f.HasDef && (Equal(nv, Normalise(f.Type, f.Default)) || Equal(nv, Normalise(f.Type, WireForm(f.Type, f.Default, 0)))) {
 				continue
 			}
 			o.F[f.ID] = nv
@@ -558,6 +558,89 @@ func Normalise(t *Type, v V) V {
 		return o
 	}
 	return v
+}
+
+// WireForm is what an object constructed from the (completed) literal v puts
+// on the wire: a non-optional struct-typed field the literal leaves out is a
+// nil pointer in the object, and the generated Write emits a nil struct as an
+// empty struct.
+func WireForm(t *Type, v V, depth int) V {
+	if v == nil || depth > 12 {
+		return v
+	}
+	switch t.Kind {
+	case List, Set:
+		x := v.(*ListV)
+		o := &ListV{E: []V{}}
+		for _, e := range x.E {
+			o.E = append(o.E, WireForm(t.Elem, e, depth+1))
+		}
+		return o
+	case Map:
+		x := v.(*MapV)
+		o := &MapV{K: []V{}, E: []V{}}
+		for i := range x.K {
+			o.K = append(o.K, WireForm(t.Key, x.K[i], depth+1))
+			o.E = append(o.E, WireForm(t.Elem, x.E[i], depth+1))
+		}
+		return o
+	case Struct:
+		x := v.(*StructV)
+		o := NewStruct()
+		for _, f := range t.Struct.Fields {
+			if fv, ok := x.F[f.ID]; ok && fv != nil {
+				o.F[f.ID] = WireForm(f.Type, fv, depth+1)
+			} else if f.Req != idl.ReqOptional && f.Type.Kind == Struct && t.Struct.Kind != "union" {
+				o.F[f.ID] = NewStruct()
+			}
+		}
+		return o
+	}
+	return v
+}
+
+// Readable reports whether every struct inside v carries all its required
+// fields (and every union exactly one member), i.e. whether a strict reader
+// accepts the encoding of v.
+func Readable(t *Type, v V) bool {
+	if v == nil {
+		return false
+	}
+	switch t.Kind {
+	case List, Set:
+		for _, e := range v.(*ListV).E {
+			if !Readable(t.Elem, e) {
+				return false
+			}
+		}
+	case Map:
+		x := v.(*MapV)
+		for i := range x.K {
+			if !Readable(t.Key, x.K[i]) || !Readable(t.Elem, x.E[i]) {
+				return false
+			}
+		}
+	case Struct:
+		x := v.(*StructV)
+		n := 0
+		for _, f := range t.Struct.Fields {
+			fv, ok := x.F[f.ID]
+			if !ok || fv == nil {
+				if f.Req == idl.ReqRequired {
+					return false
+				}
+				continue
+			}
+			n++
+			if !Readable(f.Type, fv) {
+				return false
+			}
+		}
+		if t.Struct.Kind == "union" && n != 1 {
+			return false
+		}
+	}
+	return true
 }
 
 func isScalar(t *Type) bool {
